@@ -244,8 +244,30 @@ class C14(F.PropCheck):
             evs += [('NEWCONN', [], b''), ('CFG', [], prev), ('SEG', [], req)]
         return F.Case(cid, evs, tags)
 
+    def gen_two_step(self, rng, cid):
+        """form A stores a long password (33..max), a later form B submits the password empty (or not at all) with a
+        user name / e-mail of a different length"""
+        al = b'abcdefghijklmnopqrstuvwxyzABCDEFGHIJKLMNOPQRSTUVWXYZ0123456789'
+        def rs(n): return bytes(rng.choice(al) for _ in range(n))
+        mqtt = rng.random() < 0.5
+        hdr = b'POST / HTTP/1.1\r\nHost: 192.168.4.1\r\n\r\n'
+        plen = rng.choice([33, 34, 40, 64, 100, 150, 200, 250, 255, 256, rng.randrange(33, 257)])
+        n1 = rng.choice([0, 1, 5, 20, 60, 120, 200, 254, 255, 256, rng.randrange(0, 257)]); n2 = rng.choice([0, 1, 4, 21, 61, 100, 180, 240, 254, 255, rng.randrange(0, 256)])
+        nm, pw = (b'usr', b'mwd') if mqtt else (b'eml', b'pwd')
+        pro = b'pro=1&' if mqtt else b'pro=0&'
+        fa = hdr + pro + b'sid=net&wpw=wifipass&' + (b'mvr=broker&' if mqtt else b'svr=s.org&') + nm + b'=' + rs(n1) + b'&' + pw + b'=' + rs(plen) + b'&rbt=0'
+        k = rng.random()
+        pwpart = (b'&' + pw + b'=') if k < 0.6 else (b'' if k < 0.85 else b'&' + pw + b'=&led=1')
+        fb = hdr + pro + b'sid=net2&led=0&' + (b'mvr=broker2&' if mqtt else b'svr=t.org&') + nm + b'=' + rs(n2) + pwpart + (b'&rbt=0' if not pwpart.endswith(b'led=1') else b'')
+        prev = self.gen_prev(rng)
+        evs = [('CFG', [], prev), ('SEG', [], fa), ('NEWCONN', [], b''), ('SEG', [], fb)]
+        return F.Case(cid, evs, ['two-step:long-password-then-empty:%s' % ('mqtt' if mqtt else 'supla'), 'one-segment'])
+
     def gen_cases(self, rng, n, tier):
         cases = []
+        n2 = n // 8
+        for i in range(n2): cases.append(self.gen_two_step(rng, '%st%d' % (tier[0], i)))
+        n = n - n2
         for i in range(n):
             prev = self.gen_prev(rng); req, tags = self.gen_request(rng)
             cuts, ct = self.cuts(rng, req, tier); tags = list(tags) + [ct]
@@ -306,6 +328,16 @@ class C14(F.PropCheck):
                     occ = [m.end() for sg in seen for nm in nms for m in re.finditer(re.escape(nm + b'='), sg)]
                     if occ and all(self.empty_at(seen, nms)):
                         v.append('%ssegment %d: %s changed although it was submitted empty' % (label, si, f))
+                # an absent or empty password keeps the effective password (Password field + the part behind the
+                # e-mail/user-name terminator, as supla_esp_mqtt.c reassembles it), as long as it still fits behind the new name
+                occ = [sg[m.end():m.end() + 1] for sg in [seg] for nm in (b'pwd', b'mwd') for m in re.finditer(re.escape(nm + b'='), sg)]
+                if all(x in (b'', b'&') for x in occ) and self.pwd_ok(before):
+                    eb, tb = self.effective_password(before); ea, ta = self.effective_password(img)
+                    eo, es = c['O_Email'], c['Z_Email']; nl = img[eo:eo + es].find(b'\0')
+                    if eb is not None and ea is not None and 0 <= nl and len(tb) <= es - 2 - nl and ea != eb:
+                        v.append('%ssegment %d: the password was %s but the effective password (Password field + part behind the name) changed: '
+                                 '%d -> %d characters%s' % (label, si, 'submitted empty' if occ else 'not submitted', len(eb), len(ea),
+                                 '' if len(ea) != len(eb) else ', different contents'))
                 # numeric ranges
                 o = c['O_LocationID']
                 if img[o:o + 4] != before[o:o + 4] and not self.occurs(seen, b'lid') and self.occurs(seen, b'prt'):
@@ -326,6 +358,18 @@ class C14(F.PropCheck):
                 for m in re.finditer(re.escape(nm + b'='), sg):
                     yield m.end() >= len(sg) or sg[m.end():m.end() + 1] == b'&'
 
+    def effective_password(self, img):
+        """(password, overflow part) as stored: Password field, and when it is full the string behind the name terminator inside the field; (None, b'') when the e-mail/user name is unterminated"""
+        c = consts(); po, ps = c['O_LocationPwd'], c['Z_LocationPwd']; eo, es = c['O_Email'], c['Z_Email']
+        p = img[po:po + ps]; k = p.find(b'\0')
+        if k >= 0: return p[:k], b''
+        e = img[eo:eo + es]; ul = e.find(b'\0')
+        if ul < 0: return None, b''
+        if ul >= es - 1: return p, b''
+        tail = e[ul + 1:]; t = tail.find(b'\0')
+        if t < 0: return p, b''          # (the MQTT client additionally ignores a part that ends in the last byte of the field)
+        return p + tail[:t], tail[:t]
+
     def pwd_ok(self, img):
         """previous image: long password either absent or properly terminated behind the e-mail"""
         c = consts(); po, ps = c['O_LocationPwd'], c['Z_LocationPwd']; eo, es = c['O_Email'], c['Z_Email']
@@ -339,7 +383,7 @@ class C14(F.PropCheck):
             if k == 'CFG':
                 prev = bytes(data) + bytes(max(0, consts()['CFG_SIZE'] - len(data)))
                 if cur is not None and not cur[1]: cur[0] = prev
-            elif k == 'NEWCONN': cur = [prev, []]; conns.append(cur)
+            elif k == 'NEWCONN': cur = [None, []]; conns.append(cur)
             elif k == 'SEG':
                 if cur is None: cur = [prev, []]; conns.append(cur)
                 cur[1].append(bytes(data))
@@ -356,6 +400,9 @@ class C14(F.PropCheck):
             for (prev, segs) in conns:
                 o = so[pos:pos + len(segs)]; pos += len(segs)
                 if len(o) < len(segs): finals.append(None); continue
+                if prev is None:      # no CFG event since the previous connection: it starts from what that one left
+                    prev = finals[-1][0] if finals and finals[-1] is not None else None
+                    if prev is None: finals.append(None); continue
                 finals.append((self.check_stream(label, prev, segs, o, v), sum(x[0][2] for x in o if len(x[0]) > 2)))
             # the saved result does not depend on the segmentation: connection 1 = split, connection 2 = the same bytes in one segment
             if len(conns) == 2 and len(conns[0][1]) > 1 and len(conns[1][1]) == 1 and b''.join(conns[0][1]) == conns[1][1][0] \
